@@ -38,7 +38,8 @@ inductive H where
   | all (x : String) (T : Ty) (b : H) | ex (x : String) (T : Ty) (b : H)
   | add (a b : H) | sub (isNat : Bool) (a b : H) | mul (a b : H) | div (a b : H) | neg (a : H)
   | le (a b : H) | lt (a b : H) | ge (a b : H) | gt (a b : H)
-  | ofNat (a : H)                       -- of_nat :: nat => real
+  | ofNat (a : H)                       -- of_nat :: nat => real, argument not a free variable
+  | ofNatVar (x : String)               -- of_nat x for a free variable x :: nat
   | max (a b : H) | min (a b : H) | abs (isReal : Bool) (a : H)
   | app (f : String) (dom cod : Ty) (a : H)   -- variable f :: dom => cod applied
   | mem (a : H) (S : String) (dom : Ty)       -- a ∈ S for a variable S :: dom set
@@ -188,6 +189,17 @@ def freshName (nm : String) : M String := fun s =>
   let n := variantName nm s.varNames
   (.ok n, { s with varNames := s.varNames ++ [n] })
 
+/-- `of_nat x` for a free variable x (not bound by a quantifier of the term): a separate
+non-negative real constant, remembered in `to_real`; x itself is not visited. -/
+def ofNatVarM (x : String) : M R := fun s =>
+  match lookup x s.toReal with
+  | some rx => (.ok (.z (.const rx .real)), s)
+  | none =>
+    let nm := variantName ("r" ++ x) s.varNames
+    (.ok (.z (.const nm .real)),
+     { varNames := s.varNames ++ [nm], toReal := s.toReal ++ [(x, nm)],
+       assms := (s.assms.filter (fun p => p.1 != nm)) ++ [(nm, .ge (.const nm .real) (.rlit 0))] })
+
 /-- The function `rec` inside `convert`; `env` lists (generated name, type) of the enclosing
 binders, innermost first. -/
 def conv (env : List (String × Ty)) : H → M R
@@ -288,24 +300,12 @@ def conv (env : List (String × Ty)) : H → M R
   | .gt a b => do
       let a' ← conv env a; let b' ← conv env b
       liftE (cmpR .gt a' b')
-  | .ofNat a =>
-      match a with
-      | .var x _ => do
-          -- free nat variable: a separate non-negative real constant, remembered in to_real
-          let s ← getSt
-          match lookup x s.toReal with
-          | some rx => pure (.z (.const rx .real))
-          | none =>
-              let nm ← freshName ("r" ++ x)
-              let s ← getSt
-              setSt { s with toReal := s.toReal ++ [(x, nm)],
-                             assms := (s.assms.filter (fun p => p.1 != nm)) ++ [(nm, .ge (.const nm .real) (.rlit 0))] }
-              pure (.z (.const nm .real))
-      | _ => do
-          let a' ← conv env a
-          match a' with
-          | .z e => pure (.z (.toReal e))
-          | _ => failM .crash
+  | .ofNatVar x => ofNatVarM x
+  | .ofNat a => do
+      let a' ← conv env a
+      match a' with
+      | .z e => pure (.z (.toReal e))
+      | _ => failM .crash
   | .max a b => do
       let a' ← conv env a; let b' ← conv env b
       let c ← liftE (cmpR .ge a' b')
@@ -355,7 +355,8 @@ def hasDup : List String → Bool
   | [] => false
   | x :: xs => xs.contains x || hasDup xs
 
-def solveCore (vars : List (String × Ty)) (As : List H) (C : H) : Except Err (List Z) :=
+/-- assertions and final tables -/
+def solveCoreFull (vars : List (String × Ty)) (As : List H) (C : H) : Except Err (List Z × St) :=
   let names := vars.map (·.1)
   if hasDup names then .error .z3exc else
   match solveCoreAux As { varNames := names, assms := [], toReal := [] } [] with
@@ -364,10 +365,13 @@ def solveCore (vars : List (String × Ty)) (As : List H) (C : H) : Except Err (L
     match convert C st with
     | (.ok r, st') =>
       match boolArg r with
-      | .ok z => .ok (acc ++ [.not z] ++ st'.assms.map (·.2))
+      | .ok z => .ok (acc ++ [.not z] ++ st'.assms.map (·.2), st')
       | .error e => .error e
-    | (.error .z3exc, st') => .ok (acc ++ st'.assms.map (·.2))   -- conclusion dropped: nothing negated
+    | (.error .z3exc, st') => .ok (acc ++ st'.assms.map (·.2), st')   -- conclusion dropped: nothing negated
     | (.error .crash, _) => .error .crash
+
+def solveCore (vars : List (String × Ty)) (As : List H) (C : H) : Except Err (List Z) :=
+  (solveCoreFull vars As C).map (·.1)
 
 /-! ### Semantics -/
 
@@ -491,6 +495,7 @@ def evalH (σ : String → Val K) (F : String → Val K → Val K) : List (Val K
   | ρ, .ge a b => vge N (evalH σ F ρ a) (evalH σ F ρ b)
   | ρ, .gt a b => vgt N (evalH σ F ρ a) (evalH σ F ρ b)
   | ρ, .ofNat a => vtoReal N (evalH σ F ρ a)
+  | _, .ofNatVar x => vtoReal N (σ x)
   | ρ, .max a b => vmax N (evalH σ F ρ a) (evalH σ F ρ b)
   | ρ, .min a b => vmin N (evalH σ F ρ a) (evalH σ F ρ b)
   | ρ, .abs isReal a => vabs N isReal (evalH σ F ρ a)
